@@ -41,7 +41,7 @@ CLEAR_PORT, OBF_PORT = 5000, 5001
 def run_one(params: dict, chooser, deviations=True) -> dict:
     ERRORS.records.clear()
     role = params.get('role', 'request')
-    world = World(chooser=chooser, horizon=100.0, deviations=False)
+    world = World(chooser=chooser, horizon=100.0, deviations=False, slowcpu=True)
     try:
         net = SimNet(world, losable=False)
         install_virtual_time(world)
@@ -149,7 +149,10 @@ def run_one(params: dict, chooser, deviations=True) -> dict:
                 slot['state'], tuple(sorted(c.state.name for c in network.peer_connections)),
                 len(network._expected_response_futures), len(network._expected_connection_futures),
                 tuple(sorted(ev.key for ev in world.pending)))
-            # judged at "returned + quiescent": the clock is not advanced past the return
+            # judged at "returned + quiescent": the clock is not advanced past the return (a late loop is only
+            # explored while the request is pending)
+            world.boundary_hooks.append(
+                lambda: setattr(world, 'opt_slowcpu', slot['state'] not in ('done', 'cancelled')))
             world.run(until=lambda: slot['state'] in ('done', 'cancelled') and not world.loop.has_ready()
                       and not world.releasable())
 
@@ -157,6 +160,7 @@ def run_one(params: dict, chooser, deviations=True) -> dict:
             timing_dev = any(lbl.startswith(('hold', 'lose', 'slowcpu', 'unhold')) for lbl in labels)
             direct_works = direct == 'ok'
             indirect_works = indirect == 'pierce'
+            late_timeout = False
             if params.get('mode', 'race') == 'fallback':
                 should = direct_works or indirect_works
             else:
@@ -183,7 +187,10 @@ def run_one(params: dict, chooser, deviations=True) -> dict:
             else:
                 c = holder['conn']
                 want_cs = 'NEGOTIATING_TRANSFER' if typ == 'F' else 'ESTABLISHED'
-                if result != ('CONNECTED', want_cs, typ, 'bob'):
+                # a loop that is a whole read time-out late closes the new connection in the iteration it is returned
+                late_timeout = any(lbl.startswith('slowcpu') for lbl in labels) and any(
+                    o[1] == 'state' and o[5] == 'TIMEOUT' for o in world.obs if len(o) > 5)
+                if result != ('CONNECTED', want_cs, typ, 'bob') and not late_timeout:
                     add('unusable-connection', f"returned connection is {result}", 'C11:unusable-connection')
                 if not should and not timing_dev:
                     add('should-fail', f"returned a connection although direct={direct} indirect={indirect}",
@@ -224,7 +231,7 @@ def run_one(params: dict, chooser, deviations=True) -> dict:
                     add('leftover-connection',
                         f"registry holds {extra!r} besides the returned connection",
                         f"C11:leftover-connection:{extra[0].state.name}:{'in' if extra[0].incoming else 'out'}")
-                if keep is not None and not any(c is keep for c in reg):
+                if keep is not None and not any(c is keep for c in reg) and not late_timeout:
                     add('returned-not-registered', f"{keep!r} not in registry", 'C11:returned-not-registered')
                 keep_t = keep._writer.transport if (keep is not None and keep._writer is not None) else None
                 for sc in net.conns:
@@ -276,7 +283,7 @@ def run_one(params: dict, chooser, deviations=True) -> dict:
             if cannot and cannot[0].username != 'bob':
                 add('cannot-connect-user', repr(cannot[0]), 'C11:cannot-connect-user')
             if direct == 'ok' and not pierces and not any(
-                    lbl.startswith(('hold', 'lose')) for lbl in (chooser.labels() if hasattr(chooser, 'labels') else [])):
+                    lbl.startswith(('hold', 'lose', 'slowcpu')) for lbl in (chooser.labels() if hasattr(chooser, 'labels') else [])):
                 add('connect-back-should-pierce', f"cannot={cannot}", 'C11:connect-back-should-pierce')
             if network._create_peer_connection_tasks:
                 add('leftover-task', 'connect-to-peer task alive', 'C11:leftover-connect-to-peer-task')
